@@ -243,6 +243,9 @@ fn lossy_consumed(json: &[u8], n: usize) -> usize {
             // replaced by U+FFFD
             repaired += 3;
             consumed += chunk.invalid().len();
+            if repaired >= n {
+                return consumed;
+            }
         }
     }
     consumed
